@@ -118,6 +118,8 @@ DECISIVE = {
     'C09': {'corr-err-vs-ok', 'corr-ok-vs-err', 'corr-errclass', 'corr-errfield', 'corr-bytes', 'panic', 'crash'},
     'C10': {'corr-bytes', 'corr-value', 'corr-size', 'prop-rt-value', 'panic', 'crash'},
     'C11': {'corr-value', 'corr-bytes', 'corr-size', 'prop-size', 'corr-hop', 'panic', 'crash'},
+    'C12': {'corr-resolve', 'corr-resolve-rejected', 'corr-resolve-accepted', 'corr-bytes', 'corr-value', 'prop-rt-value', 'panic', 'crash', 'universe-mismatch'},
+    'C13': {'corr-resolve-accepted', 'prop-invalid-size', 'prop-invalid-enc', 'prop-invalid-dec', 'prop-valid-rejected', 'prop-badarg', 'panic', 'crash'},
     'C15': {'corr-errclass', 'corr-err-vs-ok', 'corr-ok-vs-err', 'panic', 'crash'},
     'C16': {'prop-guard', 'prop-mutated', 'prop-repeat', 'prop-input-mutated', 'panic', 'crash'},
 }
@@ -224,7 +226,7 @@ def standard_check(prop, tier, seed, widen=False):
     t1 = time.time()
     obs = run_cases(exe, cases)
     t2 = time.time()
-    res = run_judge(u.env_sx(), cases, obs, os.path.join(CACHE, 'work', prop))
+    res = run_judge(u.env_sx() + '\n' + u.gouniverse_sx(), cases, obs, os.path.join(CACHE, 'work', prop))
     log('[%s] %d cases: run %.1fs judge %.1fs' % (prop, len(cases), t2 - t1, time.time() - t2))
     failures = []
     cd = dict(cases)
@@ -235,6 +237,10 @@ def standard_check(prop, tier, seed, widen=False):
         tags = r[1]
         failures.append({'id': cid, 'case': cd[cid], 'tags': tags, 'detail': r[2], 'obs': obs.get(cid, ''),
                          'decisive': bool(set(tags) & dec) or any(t.startswith('model-') for t in tags) and False})
+    if UNIVERSE_STATUS.get('MISMATCH') is not None or 'ENV-NOT-OK' in UNIVERSE_STATUS:
+        failures.append({'id': 'universe', 'case': '(universe)', 'tags': ['universe-mismatch'],
+                         'detail': 'the model resolver and the schema the tags were printed from differ for: %s' % UNIVERSE_STATUS,
+                         'obs': '', 'decisive': prop == 'C12'})
     missing = [cid for cid, _ in cases if cid not in res]
     for cid in missing:
         failures.append({'id': cid, 'case': cd[cid], 'tags': ['unjudged'], 'detail': 'no verdict', 'obs': obs.get(cid, ''), 'decisive': False})
@@ -271,7 +277,7 @@ def load_corpus(prop, u):
                 ln = ln.strip()
                 if not ln or ln.startswith('#'):
                     continue
-                m = re.match(r'\(\w+ (\w+) ', ln)
+                m = re.match(r'\(\w+ (\w+)[ )]', ln)
                 if m and m.group(1) in u.by_name:
                     out.append((ln, {'type': m.group(1), 'op': 'corpus'}))
     return out
@@ -382,7 +388,7 @@ def replay(path):
     exe = build_harness(u, prop)
     cases = [('r0', doc['case'])]
     obs = run_cases(exe, cases, shards=1)
-    res = run_judge(u.env_sx(), cases, obs, os.path.join(CACHE, 'work', 'replay'))
+    res = run_judge(u.env_sx() + '\n' + u.gouniverse_sx(), cases, obs, os.path.join(CACHE, 'work', 'replay'))
     print('case       :', doc['case'][:2000])
     print('observation:', obs.get('r0', '')[:2000])
     print('verdict    :', res.get('r0'))
